@@ -13,6 +13,7 @@ package main
 import (
 	"context"
 	"errors"
+	"regexp"
 	"sync"
 	"syscall"
 	"crypto/sha256"
@@ -55,6 +56,10 @@ type scenario struct {
 	// how the path handed to the library is SPELLED (same file-system object, different string): "" = cleaned absolute path,
 	// trail "p/", trail2 "p//", dottrail "p/.", inner2 "a//b", innerdot "a/./b", updown "outside/../p", rel "./p" (cwd = sandbox), reltrail "./p/"
 	Spelling   string `json:"spelling,omitempty"`
+	// read-side fault (faultfs.go) and HISTORY: calls made earlier in the same process (the library must judge every call by
+	// its own arguments, whatever was asked before)
+	Read       *readFault `json:"read,omitempty"`
+	Before     []scenario `json:"before,omitempty"`
 	FailNth    int    `json:"fail_nth,omitempty"`
 	FailAlways bool   `json:"fail_always,omitempty"`
 	FailErr    string `json:"fail_err,omitempty"`
@@ -239,6 +244,7 @@ func build(sandbox string, sc scenario, old time.Time) error {
 // ---- running one scenario ----
 
 type outcome struct {
+	ReadFaults int // read-side faults that actually fired
 	ErrNil  bool
 	ErrText string
 	Before  map[string]snapEntry
@@ -303,7 +309,8 @@ func execute(sc scenario) (*outcome, string, error) {
 			return nil
 		}
 	}
-	sh := shim.New(filesystem.NewExtendedOsFs(), hook)
+	ffs := newFaultFs(filesystem.NewExtendedOsFs(), sc.Read)
+	sh := shim.New(ffs, hook)
 	var fs filesystem.FS = filesystem.NewVirtualFileSystem(sh, filesystem.StandardFS, filesystem.IdentityPathConverterFunc)
 	if sc.Global {
 		fs = filesystem.GetGlobalFileSystem()
@@ -397,7 +404,7 @@ func execute(sc scenario) (*outcome, string, error) {
 	if err != nil {
 		return nil, sandbox, err
 	}
-	o := &outcome{ErrNil: callErr == nil, Before: before, After: after, Log: sh.Log()}
+	o := &outcome{ErrNil: callErr == nil, Before: before, After: after, Log: sh.Log(), ReadFaults: ffs.Fired()}
 	if callErr != nil {
 		o.ErrText = callErr.Error()
 	}
@@ -419,16 +426,36 @@ func effectivePatterns(sc scenario) []string {
 	return out
 }
 
-// matches: some component of the sandbox-relative path contains a (literal, separator-free) pattern
+// matches: some component of the sandbox-relative path matches one of the (separator-free) patterns, judged with Go's
+// regexp on the pattern AS GIVEN IN THIS CALL (a literal matches as a substring)
+var reCache = map[string]*regexp.Regexp{}
+
 func matches(p string, pats []string) bool {
-	for _, c := range strings.Split(p, "/") {
-		for _, pat := range pats {
-			if strings.Contains(c, pat) {
+	for _, pat := range pats {
+		re, ok := reCache[pat]
+		if !ok {
+			re, _ = regexp.Compile(pat)
+			reCache[pat] = re
+		}
+		if re == nil {
+			continue
+		}
+		for _, c := range strings.Split(p, "/") {
+			if re.MatchString(c) {
 				return true
 			}
 		}
 	}
 	return false
+}
+
+func literal(pats []string) bool {
+	for _, p := range pats {
+		if regexp.QuoteMeta(p) != p {
+			return false
+		}
+	}
+	return true
 }
 
 // oracle evaluates the property on the observations; it never looks at the model.
@@ -507,11 +534,17 @@ func oracle(r *h.Run, sc scenario, o *outcome, sandbox string) {
 	cancelled := sc.Cancelled && usesCtx(sc.Op)
 	// 3. success without exclusion patterns: really gone
 	if o.ErrNil && len(pats) == 0 && !cancelled {
+		// known finding: VFS.Exists answers "does not exist" when Stat / Open fail with an I/O error, so the call returns nil
+		// without having removed anything; kept apart from every other way of reporting success with entries left
+		remSig, contSig := "tree-remains-after-success:rm", "content-remains-after-success:clean"
+		if sc.Read != nil && o.ReadFaults > 0 && (sc.Read.Op == "stat" || sc.Read.Op == "open") {
+			remSig, contSig = "io-error-read-as-absent:rm", "io-error-read-as-absent:clean"
+		}
 		switch cls {
 		case "rm":
 			for p := range o.After {
 				if under(sc.Root, p) {
-					r.Fail("tree-remains-after-success:rm", fmt.Sprintf("%s(%q) returned nil but %q (%s) is still there", sc.Op, sc.Root, p, o.After[p].Kind), sc)
+					r.Fail(remSig, fmt.Sprintf("%s(%q) returned nil but %q (%s) is still there", sc.Op, sc.Root, p, o.After[p].Kind), sc)
 					break
 				}
 			}
@@ -519,7 +552,7 @@ func oracle(r *h.Run, sc scenario, o *outcome, sandbox string) {
 			if b, ok := o.Before[sc.Root]; ok && b.Kind == "d" {
 				for p := range o.After {
 					if p != sc.Root && under(sc.Root, p) {
-						r.Fail("content-remains-after-success:clean", fmt.Sprintf("%s(%q) returned nil but %q (%s) is still there", sc.Op, sc.Root, p, o.After[p].Kind), sc)
+						r.Fail(contSig, fmt.Sprintf("%s(%q) returned nil but %q (%s) is still there", sc.Op, sc.Root, p, o.After[p].Kind), sc)
 						break
 					}
 				}
@@ -706,6 +739,10 @@ func emitCase(r *h.Run, sc scenario, o *outcome) {
 
 func runScenario(r *h.Run, sc scenario, emit bool) {
 	r.Eval()
+	for _, b := range sc.Before {
+		b.Before = nil
+		_, _, _ = execute(b) // history only: judged when it ran as a scenario of its own
+	}
 	o, sandbox, err := execute(sc)
 	if errors.Is(err, errNoReturn) {
 		// the library call is still running (and still deleting): report and stop the whole run now
@@ -756,14 +793,26 @@ func runScenario(r *h.Run, sc scenario, emit bool) {
 		}
 	}
 	r.Sample(map[string]any{"op": sc.Op, "root": sc.Root, "entries": len(sc.Entries), "links_in_tree": nl, "patterns": effectivePatterns(sc),
-		"cancelled": sc.Cancelled, "gc": sc.GC, "spelling": sc.Spelling, "err": o.ErrText, "entries_removed": removed, "backend_ops": len(o.Log)})
+		"cancelled": sc.Cancelled, "gc": sc.GC, "spelling": sc.Spelling, "read_fault": sc.Read, "history": len(sc.Before), "err": o.ErrText, "entries_removed": removed, "backend_ops": len(o.Log)})
 	if sc.FailNth > 0 {
 		r.Count("fault-injected(oracle only):" + cls)
 		if !o.ErrNil {
 			r.Count("fault-injected:error-reported")
 		}
 	}
-	if emit && !sc.Global && sc.FailNth == 0 {
+	if sc.Read != nil {
+		r.Count("read-fault(oracle only):" + sc.Read.Op)
+		if o.ReadFaults > 0 {
+			r.Count("read-fault:fired")
+			if !o.ErrNil {
+				r.Count("read-fault:error-reported")
+			}
+		}
+	}
+	if len(sc.Before) > 0 {
+		r.Count("with-history")
+	}
+	if emit && !sc.Global && sc.FailNth == 0 && sc.Read == nil && literal(effectivePatterns(sc)) {
 		emitCase(r, sc, o)
 	}
 }
@@ -878,6 +927,8 @@ func corpus() []scenario {
 			out = append(out, scenario{Entries: fw, Root: "tree/sub", Op: op, Spelling: sp, GC: "all"})
 		}
 	}
+	out = append(out, historySequences()...)
+	out = append(out, readFaultScenarios(fw)...)
 	// mutual loop, link chain, links only, empty tree, missing root, file root
 	loop := append(base(), d("tree"), l("tree/p", "tree/q", false), l("tree/q", "tree/p", true), l("tree/c1", "tree/c2", false), l("tree/c2", "tree/c3", false), l("tree/c3", "outside", false))
 	for _, op := range []string{"Rm", "CleanDir", "GarbageCollect", "RemoveWithPrivileges"} {
@@ -914,10 +965,89 @@ func corpus() []scenario {
 	return out
 }
 
+// historySequences: pairs of calls in the same process whose pattern LISTS are textually close (same concatenation, same
+// %v / %s / Join rendering, a permutation, a prefix, blanks, commas, brackets).  Each call is judged by its own list.
+var histNo int
+
+func historySequences() []scenario {
+	var out []scenario
+	for _, op := range []string{"RemoveWithContextAndExclusionPatterns", "CleanDirWithContextAndExclusionPatterns"} {
+		for fam := 0; fam < 7; fam++ {
+			for order := 0; order < 2; order++ {
+				histNo++
+				u, v := fmt.Sprintf("rel%dz", histNo), fmt.Sprintf("not%dy", histNo) // fresh tokens: no list was ever used before
+				var l1, l2 []string
+				switch fam {
+				case 0:
+					l1, l2 = []string{u + " " + v}, []string{u, v} // %v, %s, Join(" ")
+				case 1:
+					l1, l2 = []string{u + v}, []string{u, v} // Join("")
+				case 2:
+					l1, l2 = []string{u + "," + v}, []string{u, v} // Join(",")
+				case 3:
+					l1, l2 = []string{u, v}, []string{v, u} // sorted key
+				case 4:
+					l1, l2 = []string{u}, []string{u, v} // first pattern only / prefix
+				case 5:
+					l1, l2 = []string{"[" + u + " " + v + "]"}, []string{u + " " + v} // %v of the second renders the first
+				default:
+					l1, l2 = []string{u + " " + v, "other"}, []string{u, v + " other"}
+				}
+				if order == 1 {
+					l1, l2 = l2, l1
+				}
+				tree := append(base(), d("tree"), d("tree/docs"), f("tree/docs/"+u+".txt", "r"), f("tree/docs/"+v+".md", "n"), f("tree/docs/"+u+" "+v, "rn"),
+					f("tree/docs/"+u+","+v, "c"), f("tree/docs/"+u+v, "j"), f("tree/docs/other", "o"), f("tree/docs/"+v+" other", "vo"), d("tree/"+u), f("tree/"+u+"/inner", "i"),
+					d("tree/sub"), f("tree/sub/"+v, "v"), l("tree/sub/"+u+"lnk", "outside", false), f("tree/plain", "p"))
+				first := scenario{Entries: tree, Root: "tree", Op: op, Patterns: l1}
+				second := scenario{Entries: tree, Root: "tree", Op: op, Patterns: l2, Before: []scenario{first}}
+				out = append(out, first, second)
+			}
+		}
+	}
+	return out
+}
+
+// readFaultScenarios: a directory read that fails part-way (still returning some names), Open / Stat / Lstat failing once or
+// for good, at every position of the walk.  Oracle unchanged: nil => nothing left, nothing outside touched.
+func readFaultScenarios(tree []entry) []scenario {
+	var out []scenario
+	errs := []string{"EIO", "ESTALE", "EACCES"}
+	k := 0
+	add := func(op string, rf readFault) {
+		k++
+		rf.Err = errs[k%3]
+		out = append(out, scenario{Entries: tree, Root: "tree", Op: op, Read: &rf})
+	}
+	for _, op := range []string{"Rm", "RemoveWithContext", "RemoveWithContextAndExclusionPatterns", "RemoveWithPrivileges", "CleanDir", "CleanDirWithContext", "CleanDirWithContextAndExclusionPatterns"} {
+		for nth := 1; nth <= 4; nth++ {
+			for _, keep := range []int{0, 1, -1} {
+				add(op, readFault{Op: "listing", Nth: nth, Keep: keep})
+				add(op, readFault{Op: "listing", Nth: nth, Keep: keep, Always: true})
+			}
+		}
+		for nth := 1; nth <= 8; nth++ {
+			add(op, readFault{Op: "readdir", Nth: nth, Always: nth%2 == 0})
+			add(op, readFault{Op: "open", Nth: nth, Always: nth%2 == 1})
+			add(op, readFault{Op: "stat", Nth: nth, Always: nth%3 == 0})
+			add(op, readFault{Op: "lstat", Nth: nth, Always: nth%2 == 0})
+		}
+	}
+	for _, op := range gcOps {
+		for nth := 1; nth <= 6; nth++ {
+			k++
+			out = append(out, scenario{Entries: tree, Root: "tree", Op: op, GC: "all", Read: &readFault{Op: "lstat", Nth: nth, Always: nth%2 == 0, Err: errs[k%3]}})
+		}
+	}
+	return out
+}
+
 // ---- seeded generator ----
 
 var nameParts = []string{"a", "b", "c", "d1", "e.txt", "f-2", "KEEP", "X1", "my file", "Q", "zz", "n0", "log", "é", "aX1b", "KEEPme", "t"}
-var patternPool = []string{"KEEP", "X1", "Q", "", "ZZ", "zz", "log", "sub"}
+var patternPool = []string{"KEEP", "X1", "Q", "", "ZZ", "zz", "log", "sub", "my file", "my", "file", "f-2", "e.txt", "KEEP X1", "zz,log"}
+
+var lastPats []string // the pattern list of the previous generated call that took patterns: the next one is often textually close to it
 
 func gen(r *h.Run, thoroughShape bool) scenario {
 	rng := r.Rng
@@ -1056,6 +1186,30 @@ func gen(r *h.Run, thoroughShape bool) scenario {
 		for i := 0; i < np; i++ {
 			sc.Patterns = append(sc.Patterns, patternPool[rng.Intn(len(patternPool))])
 		}
+		if len(lastPats) > 0 && rng.Intn(3) == 0 {
+			// a list that renders like the previous one: joined, split at blanks / commas, permuted, or a prefix of it
+			switch rng.Intn(5) {
+			case 0:
+				sc.Patterns = []string{strings.Join(lastPats, " ")}
+			case 1:
+				sc.Patterns = []string{strings.Join(lastPats, "")}
+			case 2:
+				sc.Patterns = nil
+				for _, p := range lastPats {
+					sc.Patterns = append(sc.Patterns, strings.FieldsFunc(p, func(c rune) bool { return c == ' ' || c == ',' })...)
+				}
+			case 3:
+				sc.Patterns = nil
+				for i := len(lastPats) - 1; i >= 0; i-- {
+					sc.Patterns = append(sc.Patterns, lastPats[i])
+				}
+			default:
+				sc.Patterns = append([]string{}, lastPats[:1+rng.Intn(len(lastPats))]...)
+			}
+		}
+		if eff := effectivePatterns(sc); len(eff) > 0 {
+			lastPats = eff
+		}
 	}
 	if usesCtx(sc.Op) && rng.Intn(12) == 0 {
 		sc.Cancelled = true
@@ -1083,7 +1237,10 @@ func gen(r *h.Run, thoroughShape bool) scenario {
 			sc.Spelling = sp
 		}
 	}
-	if !sc.Global && opClass(sc.Op) != "gc" && rng.Intn(6) == 0 {
+	if !sc.Global && opClass(sc.Op) != "gc" && rng.Intn(8) == 0 {
+		sc.Read = &readFault{Op: []string{"listing", "listing", "readdir", "open", "stat", "lstat"}[rng.Intn(6)], Nth: 1 + rng.Intn(8), Always: rng.Intn(3) == 0,
+			Err: []string{"EIO", "ESTALE", "EACCES"}[rng.Intn(3)], Keep: rng.Intn(4) - 1}
+	} else if !sc.Global && opClass(sc.Op) != "gc" && rng.Intn(6) == 0 {
 		sc.FailNth = 1 + rng.Intn(6)
 		sc.FailAlways = rng.Intn(3) == 0
 		sc.FailErr = []string{"EPERM", "EBUSY"}[rng.Intn(2)]
